@@ -205,55 +205,75 @@ def rule_unix_build(ctx, prog):
 
 
 def eval_bool_body(b, assign):
-    """symbolically run a loop-free body whose branches test predicate calls on self; returns bool or None"""
+    """evaluate a loop-free body whose branches test predicate calls on self, for one assignment of truth values to the predicates
+    (a finite table, enumerated over the CFG — nothing is executed); returns bool or None. Values live in locals or in the fields of a
+    tuple local (`match (self.a(), self.b()) { (true, false) => .. }`)."""
     bb = 0
     steps = 0
     env = {}
+
+    def key(pl):
+        p = pl.get("p") or []
+        if all(isinstance(e, dict) and set(e) == {"f"} for e in p):
+            return (pl["l"],) + tuple(e["f"] for e in p)
+        return None
+
+    def val(o):
+        if o["k"] == "const" and "val" in o:
+            return bool(o["val"])
+        if o["k"] in ("copy", "move"):
+            k_ = key(o["pl"])
+            return env.get(k_) if k_ is not None else None
+        return None
     while steps < 200:
         steps += 1
         blk = b.blocks[bb]
         t = blk["term"]
+        # statements: simple copies, Not, tuple construction
+        for s in blk["stmts"]:
+            if s["k"] != "assign":
+                continue
+            k_ = key(s["lhs"])
+            if k_ is None:
+                continue
+            rv = s["rv"]
+            if rv["k"] == "use":
+                env[k_] = val(rv["op"])
+            elif rv["k"] == "un" and rv["op"] == "Not":
+                v = val(rv["a"])
+                env[k_] = (not v) if v is not None else None
+            elif rv["k"] == "agg" and rv.get("agg") == "tuple":
+                for i, o in enumerate(rv["ops"]):
+                    env[k_ + (i,)] = val(o)
+            elif rv["k"] == "bin" and rv.get("op") in ("BitAnd", "BitOr", "BitXor", "Eq", "Ne"):
+                x, y = val(rv["a"]), val(rv["b"])
+                if x is not None and y is not None:
+                    env[k_] = {"BitAnd": x and y, "BitOr": x or y, "BitXor": x != y, "Eq": x == y, "Ne": x != y}[rv["op"]]
         if t["k"] == "call":
             nm = canon(t.get("resolved") or t.get("callee") or "").split("::")[-1]
-            if nm in assign and "p" not in t["dest"]:
-                env[t["dest"]["l"]] = assign[nm]
-            elif nm == "not" and "p" not in t["dest"]:
-                a = t["args"][0]
-                v = env.get(a["pl"]["l"]) if a["k"] in ("copy", "move") else None
-                env[t["dest"]["l"]] = (not v) if v is not None else None
+            k_ = key(t["dest"])
+            if nm in assign and k_ is not None:
+                env[k_] = assign[nm]
+            elif nm == "not" and k_ is not None:
+                v = val(t["args"][0])
+                env[k_] = (not v) if v is not None else None
             else:
                 return None
             bb = t["t"]
             continue
-        # statements: simple copies and Not
-        for s in blk["stmts"]:
-            if s["k"] != "assign" or "p" in s["lhs"]:
-                continue
-            rv = s["rv"]
-            if rv["k"] == "use":
-                o = rv["op"]
-                if o["k"] == "const" and "val" in o:
-                    env[s["lhs"]["l"]] = bool(o["val"])
-                elif o["k"] in ("copy", "move") and "p" not in o["pl"]:
-                    env[s["lhs"]["l"]] = env.get(o["pl"]["l"])
-            elif rv["k"] == "un" and rv["op"] == "Not":
-                o = rv["a"]
-                v = env.get(o["pl"]["l"]) if o["k"] in ("copy", "move") else None
-                env[s["lhs"]["l"]] = (not v) if v is not None else None
         if t["k"] == "goto":
             bb = t["t"]
         elif t["k"] == "switch":
-            d = t["discr"]
-            v = env.get(d["pl"]["l"]) if d["k"] in ("copy", "move") else None
+            v = val(t["discr"])
             if v is None:
                 return None
             nxt = t["otherwise"]
-            for val, tgt in t["targets"]:
-                if int(bool(v)) == val:
+            for v2, tgt in t["targets"]:
+                if int(bool(v)) == v2:
                     nxt = tgt
             bb = nxt
         elif t["k"] == "return":
-            return env.get(0)
+            return env.get((0,))
         else:
             return None
     return None
